@@ -412,6 +412,14 @@ func c14LuaVal(r *rand.Rand, depth int, root, nonFinite bool) *ref.V {
 		}
 	}
 	w := r.IntN(5)
+	if r.IntN(12) == 0 {
+		// a map whose keys are the STRINGS "1", "2", ... in order: a map, not a sequence
+		m := &ref.V{K: ref.Map, M: []ref.KV{}}
+		for i := 0; i < 1+r.IntN(3); i++ {
+			m.M = append(m.M, ref.KV{K: strconv.Itoa(i + 1), V: c14LuaVal(r, depth-1, false, nonFinite)})
+		}
+		return m
+	}
 	if r.IntN(2) == 0 {
 		m := &ref.V{K: ref.Map, M: []ref.KV{}}
 		for i := 0; i < w+1; i++ {
